@@ -32,27 +32,38 @@ def _fill_chunk(args):
         seen.add(k)
         out['viols'].append(Violation(clause, sig, case, msg).to_json())
 
+    def candle(i):
+        o = 100.0 + 3 * i
+        return {'id': 'id%d' % i, 'exchange': EX, 'symbol': SYM, 'timeframe': '1m', 'timestamp': TS + i * 60000,
+                'open': o, 'close': o + 1.5, 'high': o + 2.25, 'low': o - 0.75, 'volume': 10.0 + i}
+
+    variants = []
     for mask in masks:
         present = [i for i in range(n) if mask >> i & 1]
-        given = []
-        for i in present:
-            o = 100.0 + 3 * i
-            given.append({'id': 'id%d' % i, 'exchange': EX, 'symbol': SYM, 'timeframe': '1m', 'timestamp': TS + i * 60000,
-                          'open': o, 'close': o + 1.5, 'high': o + 2.25, 'low': o - 0.75, 'volume': 10.0 + i})
-        snapshot = [dict(c) for c in given]
-        case = {'n': n, 'present': present}
+        missing = n - len(present)
+        # the exchange page handed to the filler may start late and run past the end of the requested interval
+        for head in (0,):      # candles before the start are outside the property's quantifier (which open counts as 'first known' is then ambiguous)
+            for tail in sorted({0, 1, 2, missing, missing + 1}):
+                if head and tail not in (0, missing):
+                    continue
+                variants.append((present, head, tail))
+    for present, head, tail in variants:
+        ids = ([-1] if head else []) + present + [n + k for k in range(tail)]
+        given = [candle(i) for i in ids]
+        snapshot = [dict(c) for c in given if TS <= c['timestamp'] <= TS + (n - 1) * 60000]
+        case = {'n': n, 'present': present, 'before_start': head, 'after_end': tail}
         out['n'] += 1
         try:
             res = _fill_absent_candles(list(given), TS, TS + (n - 1) * 60000)
         except Exception as e:
             bad('fill-raises', {'exc': type(e).__name__}, case, '_fill_absent_candles raised %r' % (e,))
             continue
-        if given != snapshot:
+        if [c for c in given if TS <= c['timestamp'] <= TS + (n - 1) * 60000] != snapshot:
             bad('fill-mutates-input', {}, case, 'provided candles were modified')
         ts = [c['timestamp'] for c in res]
         if ts != [TS + i * 60000 for i in range(n)]:
             kind = 'count' if len(ts) != n else 'order'
-            bad('fill-timestamps', {'kind': kind, 'first_missing': present[0] != 0, 'last_missing': present[-1] != n - 1}, case,
+            bad('fill-timestamps', {'kind': kind, 'first_missing': present[0] != 0, 'last_missing': present[-1] != n - 1, 'extra_outside': bool(head or tail)}, case,
                 'result timestamps (minutes) %s, expected 0..%d' % ([(t - TS) // 60000 for t in ts], n - 1))
             continue
         last_close = None
@@ -325,7 +336,7 @@ def replay(case, ctx):
     if 'present' in case:
         n = case['n']
         mask = sum(1 << i for i in case['present'])
-        return [Violation.from_json(v) for v in _fill_chunk((n, [mask]))['viols']]
+        return [Violation.from_json(v) for v in _fill_chunk((n, [mask]))['viols'] if v['case'].get('after_end', 0) == case.get('after_end', 0) and v['case'].get('before_start', 0) == case.get('before_start', 0)]
     if 'spacing_gap_s' in case:
         gap, verdict = _spacing(case['spacing_gap_s'])
         want = 'accepted' if gap == 60 else 'ValueError'
